@@ -153,6 +153,14 @@ func ruleE10(c *Ctx) {
 				return
 			}
 			n++
+			// an Env wrapper whose own LookupMacro forwards its name parameter unchanged is an
+			// implementation of the lookup, not a second user of it
+			if f.Name() == "LookupMacro" && len(cc.Args) >= 1 {
+				if prm, isP := cc.Args[len(cc.Args)-1].(*ssa.Parameter); isP && prm.Parent() == f {
+					c.ok("E10", "LookupMacro forwarder|"+shortName(f), c.L.Pos(instrPos(ci)), "forwards its own name parameter")
+					return
+				}
+			}
 			top := shortName(outermost(f))
 			c.check(top == "(*internal/ast.ImmExp).Eval", "E10", "LookupMacro caller|"+top, c.L.Pos(instrPos(ci)), "macro lookup belongs to the immediate-expression evaluator only; another caller would substitute names in a different way")
 		})
